@@ -27,6 +27,8 @@ def mk_event(ci, k, frac_ms=True, eid=None, salt=0):
     t = -2000000000000 + ((salt * 1000003 + ci * 7919 + k * 104729 + 1) * 99991) % 8900000000000
     if not frac_ms:
         t -= t % 1000
+    elif (ci + k) % 3 == 0:
+        t -= t % 100         # tenths of a second: written with one fraction digit by the 'short' time format
     if ci == 0 and k == 0 and salt % 4 == 0:
         t = (0, 0, -1, 1, 1000, -1000)[(salt // 4) % 6]   # exactly at / next to 1970-01-01T00:00:00
     return (eid or "c%de%d" % (ci, k), t, 30.0 + ci + k / 8.0, -120.0 + ci / 2.0 + k / 16.0, 5.0 + k, 4.0 + ci / 10.0 + k / 100.0)
@@ -167,7 +169,7 @@ def make_long_cases(max_n):
             else:
                 cats.append(s)
         return draw_tz(draw, {"cats": cats, "enc": enc, "header": draw(st.booleans()), "frac": draw(st.booleans()),
-                "timefmt": draw(st.sampled_from(["auto", "us", "ms"])), "eol": draw(st.sampled_from(["\n", "\r\n"])), "final_newline": draw(st.booleans()),
+                "timefmt": draw(st.sampled_from(["auto", "us", "ms", "short"])), "eol": draw(st.sampled_from(["\n", "\r\n"])), "final_newline": draw(st.booleans()),
                 **({"swap": draw(st.integers(0, 50))} if draw(st.integers(0, 5)) == 0 else {}), **({"pathlib": True} if draw(st.integers(0, 3)) == 0 else {})})
     return long_cases()
 
